@@ -162,7 +162,7 @@ func EncodeKeyValues(kvs []KV) []byte {
 // (archive/tar alone tolerates a stream that stops after the last entry's data and silently eats
 // whatever follows as "padding" — exactly the shape of a response whose producer failed half way.)
 // Bytes after the end marker are returned as trailing; a missing marker or a cut entry is an error.
-// Only plain entries are expected (keys are short ASCII names, so no PAX/GNU extension headers).
+// Entries of non-ASCII names come with a PAX extended header, which archive/tar folds into the entry.
 func DecodeTar(b []byte) (kvs []KV, trailing []byte, err error) {
 	rd := bytes.NewReader(b)
 	tr := tar.NewReader(rd)
@@ -186,7 +186,9 @@ func DecodeTar(b []byte) (kvs []KV, trailing []byte, err error) {
 			return kvs, nil, fmt.Errorf("tar entry %q: header says %d bytes, stream has %d", h.Name, h.Size, len(v))
 		}
 		kvs = append(kvs, KV{K: h.Name, V: v})
-		expected += 512 + (len(v)+511)/512*512
+		// where this entry ends in the stream: headers (a PAX extended header precedes the entry of a non-ASCII name)
+		// plus data, padded to the block size; archive/tar reads unbuffered, so the reader position is exact
+		expected = (len(b) - rd.Len() + 511) / 512 * 512
 	}
 	if len(b) < expected+1024 {
 		return kvs, nil, fmt.Errorf("incomplete tar archive: %d entries need %d bytes plus a 1024-byte end marker, stream has %d bytes (tail %q)", len(kvs), expected, len(b), tail(b, expected))
